@@ -14,6 +14,7 @@ case "$VARIANT" in
   plain) FLAGS="-O1" ;;
   san)   FLAGS="-O1 -fsanitize=address,undefined -fno-sanitize-recover=all -fno-omit-frame-pointer" ;;
   tsan)  FLAGS="-O1 -fsanitize=thread" ;;
+  uchar) FLAGS="-O1 -funsigned-char" ;;          # the ABI of ARM / AArch64 / PowerPC / RISC-V / Xtensa: plain char is unsigned
   *) echo "unknown variant $VARIANT" >&2; exit 2 ;;
 esac
 LOG="$OUT/build.log"; : > "$LOG"
